@@ -8,19 +8,41 @@ def upperIf (b : Bool) (r : Read) : Read := if b then { r with seq := upperBytes
 def pairUseRc (m1 m2 m1s m2s : List AnyMatch) : Bool :=
   (!m1s.isEmpty || !m2s.isEmpty) && scoreSum m1s + scoreSum m2s > scoreSum m1 + scoreSum m2
 
-theorem applyP_pairedRevcomp (ads1 ads2 : List Matchable) (c1 c2 : Option Cutter) (suffix first1 first2 : Bool)
+/-- `PairedReverseComplementer.__call__` after the (possible) in-place upper-casing of the two reads -/
+def pairedRevcompCore (c1 c2 : Option Cutter) (suffix first1 first2 : Bool) (r1 r2 : Read) (i1 i2 : Info) :
+    Except Err ((Read × Read) × (Info × Info) × List Event) := do
+  let (t1, m1, _) ← cutterOpt c1 r1
+  let (t2, m2, _) ← cutterOpt c2 r2
+  let (t1s, m1s, _) ← cutterOpt c1 r2
+  let (t2s, m2s, _) ← cutterOpt c2 r1
+  let i1 := if first1 then { i1 with original := { i1.original with seq := r1.seq } } else i1
+  let i2 := if first2 then { i2 with original := { i2.original with seq := r2.seq } } else i2
+  let useRc := (!m1s.isEmpty || !m2s.isEmpty) && scoreSum m1s + scoreSum m2s > scoreSum m1 + scoreSum m2
+  let (o1, o2, n1, n2) := if useRc then (t1s, t2s, m1s, m2s) else (t1, t2, m1, m2)
+  let o1 := if useRc && suffix then { o1 with name := o1.name ++ bytesOfStr " rc" } else o1
+  let o2 := if useRc && suffix then { o2 with name := o2.name ++ bytesOfStr " rc" } else o2
+  if (!n1.isEmpty && c1.isNone) || (!n2.isEmpty && c2.isNone) then throw .attribute else
+  pure ((o1, o2),
+    ({ i1 with isRc := some useRc, mts := i1.mts ++ n1 }, { i2 with isRc := some useRc, mts := i2.mts ++ n2 }),
+    (if useRc then [Event.revComp] else []) ++ matchedEvents 0 n1 useRc ++ matchedEvents 1 n2 useRc)
+
+theorem applyP_pairedRevcomp_core (ads1 ads2 : List Matchable) (c1 c2 : Option Cutter) (suffix first1 first2 : Bool)
     (r1 r2 : Read) (i1 i2 : Info) :
     applyP ads1 ads2 (.pairedRevcomp c1 c2 suffix first1 first2) (r1, r2) (i1, i2) =
-      match cutterOpt c1 (upperIf (pairLower c1 c2) r1) with
+      pairedRevcompCore c1 c2 suffix first1 first2 (upperIf (pairLower c1 c2) r1) (upperIf (pairLower c1 c2) r2) i1 i2 := rfl
+
+theorem pairedRevcompCore_eq (c1 c2 : Option Cutter) (suffix first1 first2 : Bool) (r1 r2 : Read) (i1 i2 : Info) :
+    pairedRevcompCore c1 c2 suffix first1 first2 r1 r2 i1 i2 =
+      match cutterOpt c1 r1 with
       | .error e => .error e
       | .ok (t1, m1, _) =>
-      match cutterOpt c2 (upperIf (pairLower c1 c2) r2) with
+      match cutterOpt c2 r2 with
       | .error e => .error e
       | .ok (t2, m2, _) =>
-      match cutterOpt c1 (upperIf (pairLower c1 c2) r2) with
+      match cutterOpt c1 r2 with
       | .error e => .error e
       | .ok (t1s, m1s, _) =>
-      match cutterOpt c2 (upperIf (pairLower c1 c2) r1) with
+      match cutterOpt c2 r1 with
       | .error e => .error e
       | .ok (t2s, m2s, _) =>
         let u := pairUseRc m1 m2 m1s m2s
@@ -31,13 +53,31 @@ theorem applyP_pairedRevcomp (ads1 ads2 : List Matchable) (c1 c2 : Option Cutter
         if (!n1.isEmpty && c1.isNone) || (!n2.isEmpty && c2.isNone) then .error .attribute else
         .ok ((if u && suffix then { o1 with name := o1.name ++ bytesOfStr " rc" } else o1,
               if u && suffix then { o2 with name := o2.name ++ bytesOfStr " rc" } else o2),
-             ({ originalAfter first1 i1 (upperIf (pairLower c1 c2) r1) with
-                  isRc := some u, mts := (originalAfter first1 i1 (upperIf (pairLower c1 c2) r1)).mts ++ n1 },
-              { originalAfter first2 i2 (upperIf (pairLower c1 c2) r2) with
-                  isRc := some u, mts := (originalAfter first2 i2 (upperIf (pairLower c1 c2) r2)).mts ++ n2 }),
+             ({ originalAfter first1 i1 r1 with isRc := some u, mts := (originalAfter first1 i1 r1).mts ++ n1 },
+              { originalAfter first2 i2 r2 with isRc := some u, mts := (originalAfter first2 i2 r2).mts ++ n2 }),
              (if u then [Event.revComp] else []) ++ matchedEvents 0 n1 u ++ matchedEvents 1 n2 u) := by
-  simp only [applyP, pairLower, upperIf, bind, Except.bind, pure, Except.pure, throw, throwThe, MonadExcept.throw]
-  generalize hA : cutterOpt c1 _ = A
-  trace_state
-  sorry
+  unfold pairedRevcompCore
+  simp only [bind, Except.bind, pure, Except.pure, throw, throwThe, MonadExcept.throw]
+  cases cutterOpt c1 r1 with
+  | error e => rfl
+  | ok v1 =>
+    obtain ⟨t1, m1, x1⟩ := v1
+    cases cutterOpt c2 r2 with
+    | error e => rfl
+    | ok v2 =>
+      obtain ⟨t2, m2, x2⟩ := v2
+      cases cutterOpt c1 r2 with
+      | error e => rfl
+      | ok v3 =>
+        obtain ⟨t1s, m1s, x3⟩ := v3
+        cases cutterOpt c2 r1 with
+        | error e => rfl
+        | ok v4 =>
+          obtain ⟨t2s, m2s, x4⟩ := v4
+          simp only [pairUseRc, originalAfter]
+          by_cases hu : ((!m1s.isEmpty || !m2s.isEmpty) && decide (scoreSum m1s + scoreSum m2s > scoreSum m1 + scoreSum m2)) = true
+          · simp only [hu, if_true]
+            rfl
+          · simp only [hu, if_false]
+            rfl
 end Cutadapt
